@@ -1,5 +1,629 @@
 package c09
 
-import "testing"
+import (
+	"bytes"
+	"context"
+	"fmt"
+	"math/rand"
+	"os"
+	"runtime"
+	"strings"
+	"sync"
+	"sync/atomic"
+	"testing"
+	"time"
 
-func TestConcurrent(t *testing.T) { t.Skip("todo") }
+	"github.com/anishathalye/porcupine"
+	"github.com/filecoin-project/go-f3/certs"
+	"github.com/filecoin-project/go-f3/certstore"
+	"github.com/filecoin-project/go-f3/verifh/vkit"
+	"github.com/filecoin-project/go-f3/verifh/vstore"
+)
+
+// Concurrent phase of C09 (built with -race).
+//
+// One store; 1 writer (valid successors interleaved with inadmissible puts) or
+// 2 competing writers submitting different certificates for the same
+// successor; 8 readers (Latest / Get / GetRange / GetPowerTable); subscribers:
+// two eager ones (one unsubscribes half-way), one slow, one that never reads,
+// one that subscribes late. The datastore yields a random number of times
+// before each write, i.e. between the individual writes of a Put.
+//
+// Oracles: per-reader Latest monotone; Get(i) found for every i <= an already
+// observed Latest, equal to one of the submitted certificates of instance i and
+// never changing; GetRange over observed instances complete and equal to Get;
+// GetPowerTable(i) for i <= observed latest+1 equals the reference table;
+// {Put -> ok/err, Latest -> instance} history linearizable (porcupine) w.r.t.
+// the successor-only register; at quiescence the last value of every live
+// subscriber is the latest certificate, and the store equals the reference
+// built from the winners, also after reopening; a Put that does not return
+// while parked in a channel send inside Store.Put is "writer blocked".
+
+const watchdog = 45 * time.Second
+
+type putIn struct {
+	Instance uint64
+	Invalid  bool // inadmissible whatever the position (wrong delta etc.)
+}
+type latestIn struct{}
+
+type regState struct {
+	First, Next uint64
+}
+
+func regModel(first uint64) porcupine.Model {
+	return porcupine.Model{
+		Init: func() interface{} { return regState{First: first, Next: first} },
+		Step: func(state, input, output interface{}) (bool, interface{}) {
+			s := state.(regState)
+			switch in := input.(type) {
+			case putIn:
+				ok := output.(bool)
+				switch {
+				case in.Instance < s.First, in.Instance > s.Next:
+					return !ok, s
+				case in.Instance < s.Next: // already stored: nothing changes; return value not fixed by the property
+					return true, s
+				case in.Invalid:
+					return !ok, s
+				default:
+					if !ok {
+						return false, s
+					}
+					return true, regState{First: s.First, Next: s.Next + 1}
+				}
+			case latestIn:
+				got := output.(int64) // -1: none, else offset from first
+				return got == int64(s.Next-s.First)-1, s
+			}
+			return false, s
+		},
+		Equal: func(a, b interface{}) bool { return a.(regState) == b.(regState) },
+		DescribeOperation: func(input, output interface{}) string {
+			switch in := input.(type) {
+			case putIn:
+				return fmt.Sprintf("Put(%d invalid=%v)->ok=%v", in.Instance, in.Invalid, output)
+			default:
+				return fmt.Sprintf("Latest()->%v", output)
+			}
+		},
+	}
+}
+
+type concCase struct {
+	run   *vkit.Run
+	idx   int
+	seed  int64
+	first uint64
+	freq  uint64
+	n     int
+	dual  bool
+
+	a, b   []*certs.FinalityCertificate
+	ab, bb [][]byte
+	tables [][]byte // tables[k] validates first+k, k = 0..n
+
+	st  *certstore.Store
+	ds  *vstore.CrashDS
+	clk atomic.Int64
+
+	mu       sync.Mutex
+	seen     map[uint64][]byte // first observed Get(i)
+	history  []porcupine.Operation
+	problems []string
+	counts   map[string]int64
+}
+
+func (c *concCase) problem(sig, detail string) {
+	c.mu.Lock()
+	c.problems = append(c.problems, sig+"\x00"+detail)
+	c.mu.Unlock()
+}
+
+func (c *concCase) count(k string, n int64) {
+	c.mu.Lock()
+	c.counts[k] += n
+	c.mu.Unlock()
+}
+
+func (c *concCase) record(ops []porcupine.Operation) {
+	c.mu.Lock()
+	c.history = append(c.history, ops...)
+	c.mu.Unlock()
+}
+
+// checkCert: immutability + "is one of the submitted certificates".
+func (c *concCase) checkCert(i uint64, got []byte, via string) {
+	k := int(i - c.first)
+	if !bytes.Equal(got, c.ab[k]) && !bytes.Equal(got, c.bb[k]) {
+		c.problem("C09 conc: "+via+" returned a certificate that was never submitted for that instance", fmt.Sprintf("instance %d", i))
+		return
+	}
+	c.mu.Lock()
+	prev, ok := c.seen[i]
+	if !ok {
+		c.seen[i] = got
+	}
+	c.mu.Unlock()
+	if ok && !bytes.Equal(prev, got) {
+		c.problem("C09 conc: stored certificate changed (Get not immutable)", fmt.Sprintf("instance %d via %s", i, via))
+	}
+}
+
+func yield(rng *rand.Rand, max int) {
+	for k := rng.Intn(max + 1); k > 0; k-- {
+		runtime.Gosched()
+	}
+}
+
+func (c *concCase) writer(id int, rng *rand.Rand, mine []*certs.FinalityCertificate, g *vstore.Gen, chain *vstore.Chain) {
+	ctx := context.Background()
+	var ops []porcupine.Operation
+	put := func(cert *certs.FinalityCertificate, invalid bool) bool {
+		call := c.clk.Add(1)
+		err := c.st.Put(ctx, cert)
+		ret := c.clk.Add(1)
+		ops = append(ops, porcupine.Operation{ClientId: id, Input: putIn{Instance: cert.GPBFTInstance, Invalid: invalid}, Call: call, Output: err == nil, Return: ret})
+		return err == nil
+	}
+	for k, cert := range mine {
+		if !c.dual && rng.Intn(3) == 0 {
+			// an inadmissible put relative to the history stored so far (chain holds certs[:k])
+			pre := &vstore.Chain{First: chain.First, Genesis: chain.Genesis, Certs: chain.Certs[:k], Tables: chain.Tables[:k+1]}
+			vs := []vstore.Variant{vstore.VariantGap, vstore.VariantWrongDeltaCID, vstore.VariantEmptyDeltaWrongCID, vstore.VariantStale, vstore.VariantDuplicateDifferent, vstore.VariantEmptyingDelta, vstore.VariantBottom}
+			v := vs[rng.Intn(len(vs))]
+			if bad := g.Bad(pre, v); bad != nil {
+				ok := put(bad, v.MustFail())
+				c.count("bad_puts", 1)
+				if v.MustFail() && ok {
+					c.problem("C09 conc: inadmissible certificate accepted without error: "+v.String(), fmt.Sprintf("instance %d", bad.GPBFTInstance))
+				}
+			}
+		}
+		if c.dual && rng.Intn(8) == 0 && k+3 < len(mine) { // a gap put in between
+			if put(mine[k+2+rng.Intn(2)], false) {
+				// legal only if the other writer got far enough; the register model decides
+				c.count("ahead_puts_accepted", 1)
+			}
+		}
+		if !put(cert, false) {
+			c.problem("C09 conc: Put of the successor (or of an already stored instance) failed", fmt.Sprintf("writer %d instance %d", id, cert.GPBFTInstance))
+		}
+		c.count("puts", 1)
+		yield(rng, 6)
+	}
+	c.record(ops)
+}
+
+func (c *concCase) reader(id int, rng *rand.Rand, done *atomic.Bool) {
+	ctx := context.Background()
+	var ops []porcupine.Operation
+	seen := int64(-1) // highest offset observed through Latest
+	recorded := 0
+	for it := 0; it < 4000; it++ {
+		if done.Load() && it > 40 {
+			break
+		}
+		switch x := rng.Intn(10); {
+		case x < 3 || seen < 0:
+			call := c.clk.Add(1)
+			l := c.st.Latest()
+			ret := c.clk.Add(1)
+			off := int64(-1)
+			if l != nil {
+				off = int64(l.GPBFTInstance - c.first)
+				if l.GPBFTInstance < c.first || off >= int64(c.n) {
+					c.problem("C09 conc: Latest returned an instance outside the submitted history", fmt.Sprint(l.GPBFTInstance))
+					return
+				}
+			}
+			if off < seen {
+				c.problem("C09 conc: Latest went backwards for one reader", fmt.Sprintf("reader %d: %d after %d", id, off, seen))
+			}
+			seen = max(seen, off)
+			if recorded < 60 {
+				recorded++
+				ops = append(ops, porcupine.Operation{ClientId: id, Input: latestIn{}, Call: call, Output: off, Return: ret})
+			}
+			c.count("latest_calls", 1)
+		case x < 6:
+			i := c.first + uint64(rng.Int63n(seen+1))
+			got, err := c.st.Get(ctx, i)
+			if err != nil {
+				c.problem("C09 conc: Get failed for an instance at or below an observed Latest", fmt.Sprintf("Get(%d) with latest >= %d: %v", i, c.first+uint64(seen), err))
+				break
+			}
+			c.checkCert(i, vstore.CertBytes(got), "Get")
+			c.count("gets", 1)
+		case x < 8:
+			a := c.first + uint64(rng.Int63n(seen+1))
+			b := a + uint64(rng.Int63n(int64(c.first+uint64(seen)-a)+1))
+			got, err := c.st.GetRange(ctx, a, b)
+			if err != nil || uint64(len(got)) != b-a+1 {
+				c.problem("C09 conc: GetRange incomplete over instances at or below an observed Latest", fmt.Sprintf("GetRange(%d,%d): %d certs, %v", a, b, len(got), err))
+				break
+			}
+			for k := range got {
+				c.checkCert(a+uint64(k), vstore.CertBytes(&got[k]), "GetRange")
+			}
+			c.count("ranges", 1)
+		default:
+			off := rng.Int63n(seen + 2) // up to observed latest + 1
+			t, err := c.st.GetPowerTable(ctx, c.first+uint64(off))
+			if err != nil || !bytes.Equal(vstore.TableBytes(t), c.tables[off]) {
+				c.problem("C09 conc: GetPowerTable differs from the derived table for an instance <= observed latest+1", fmt.Sprintf("instance %d: %v", c.first+uint64(off), err))
+			}
+			c.count("tables", 1)
+		}
+		yield(rng, 3)
+	}
+	c.record(ops)
+}
+
+type subResult struct {
+	name   string
+	values int
+	last   []byte
+	closed bool
+}
+
+// subscriberLoop reads until stop is closed, then drains what is buffered.
+func (c *concCase) subscriberLoop(name string, ch <-chan *certs.FinalityCertificate, slow bool, rng *rand.Rand, stop <-chan struct{}, floor int64) subResult {
+	res := subResult{name: name}
+	lastInst := floor
+	take := func(cert *certs.FinalityCertificate) {
+		res.values++
+		off := int64(cert.GPBFTInstance - c.first)
+		if off < lastInst {
+			c.problem("C09 conc: subscriber received an older certificate after a newer one", fmt.Sprintf("%s: %d after %d", name, off, lastInst))
+		}
+		lastInst = off
+		res.last = vstore.CertBytes(cert)
+	}
+	for {
+		select {
+		case cert, ok := <-ch:
+			if !ok {
+				res.closed = true
+				return res
+			}
+			take(cert)
+			if slow {
+				yield(rng, 400)
+			}
+		case <-stop:
+			for {
+				select {
+				case cert, ok := <-ch:
+					if !ok {
+						res.closed = true
+						return res
+					}
+					take(cert)
+				default:
+					return res
+				}
+			}
+		}
+	}
+}
+
+// blockedInPut inspects a goroutine dump for a goroutine parked in a channel
+// send inside certstore.(*Store).Put.
+func blockedInPut() (bool, string) {
+	buf := make([]byte, 4<<20)
+	buf = buf[:runtime.Stack(buf, true)]
+	for _, g := range strings.Split(string(buf), "\n\n") {
+		head, _, _ := strings.Cut(g, "\n")
+		if strings.Contains(head, "[chan send") && strings.Contains(g, "certstore.(*Store).Put") {
+			return true, g
+		}
+	}
+	return false, string(buf[:min(len(buf), 6000)])
+}
+
+// runConc executes one concurrent history. It returns false if the case had
+// to be abandoned (watchdog), in which case goroutines may be leaked.
+func runConc(run *vkit.Run, idx int) (c *concCase, completed bool) {
+	seed := run.SubSeed(int64(idx))
+	g := vstore.NewGen(seed)
+	rng := g.Rand()
+	c = &concCase{run: run, idx: idx, seed: seed, seen: map[uint64][]byte{}, counts: map[string]int64{}}
+	c.freq = []uint64{2, 3, 5, 4}[rng.Intn(4)]
+	c.first = []uint64{0, 7, 1000, 1 << 33}[rng.Intn(4)]
+	c.n = 16 + rng.Intn(45)
+	c.dual = rng.Intn(2) == 0
+
+	chain := g.NewChain(c.first, g.Table(1+rng.Intn(5)))
+	g.Extend(chain, c.n, 0.6)
+	c.a = chain.Certs
+	ref := vstore.NewModel()
+	_ = ref.Create(c.first, chain.Tables[0])
+	for k, cert := range c.a {
+		if out, why := ref.Put(cert); out != vstore.PutAccept {
+			panic("c09 conc: model refuses generated chain: " + why)
+		}
+		c.ab = append(c.ab, vstore.CertBytes(cert))
+		// B: same instance and table evolution, different content (other commitments, other signer set)
+		alt := vstore.CloneCert(cert)
+		rng.Read(alt.SupplementalData.Commitments[:])
+		g.Sign(alt, chain.Tables[k])
+		c.b = append(c.b, alt)
+		c.bb = append(c.bb, vstore.CertBytes(alt))
+	}
+	for k := 0; k <= c.n; k++ {
+		c.tables = append(c.tables, vstore.TableBytes(ref.Table(c.first+uint64(k))))
+	}
+
+	ctx := context.Background()
+	c.ds = vstore.NewCrashDS()
+	st, err := certstore.CreateStore(ctx, c.ds, c.first, chain.Tables[0])
+	if err != nil {
+		panic(err)
+	}
+	certstore.VerifC09SetPowerTableFrequency(st, c.freq)
+	c.st = st
+	// yields between the individual datastore writes of a Put (the hook runs in the writer, inside Put)
+	var hseed atomic.Int64
+	hseed.Store(seed)
+	c.ds.SetWriteHook(func(vstore.WriteRec) {
+		x := hseed.Add(0x9E3779B97F4A7C)
+		for k := (x >> 20) & 15; k > 0; k-- {
+			runtime.Gosched()
+		}
+	})
+
+	var done atomic.Bool
+	stop := make(chan struct{})
+	var writers, others sync.WaitGroup
+	results := make(chan subResult, 8)
+	mkrng := func(k int64) *rand.Rand { return rand.New(rand.NewSource(seed ^ (k * 0x5DEECE66D))) }
+
+	// subscribers present from the start
+	type subSpec struct {
+		name string
+		slow bool
+	}
+	neverCh, _ := st.Subscribe()
+	quitCh, quitCloser := st.Subscribe()
+	for k, sp := range []subSpec{{"eager", false}, {"slow", true}} {
+		ch, _ := st.Subscribe()
+		others.Add(1)
+		go func() {
+			defer others.Done()
+			results <- c.subscriberLoop(sp.name, ch, sp.slow, mkrng(int64(100+k)), stop, -1)
+		}()
+	}
+	others.Add(1)
+	go func() { // eager subscriber that unsubscribes half-way
+		defer others.Done()
+		r := mkrng(200)
+		got := 0
+		for open := true; open; {
+			select {
+			case cert, ok := <-quitCh:
+				if !ok {
+					open = false
+					break
+				}
+				got++
+				if int(cert.GPBFTInstance-c.first) >= c.n/2 {
+					quitCloser()
+				}
+				yield(r, 3)
+			case <-stop: // the history ended below n/2 (only possible if puts were refused)
+				quitCloser()
+				open = false
+			}
+		}
+		c.count("unsubscribed_subscriber_values", int64(got))
+	}()
+	others.Add(1)
+	go func() { // late subscriber
+		defer others.Done()
+		r := mkrng(300)
+		for {
+			if l := st.Latest(); l != nil && int(l.GPBFTInstance-c.first) >= c.n/3 {
+				floor := int64(l.GPBFTInstance - c.first)
+				ch, _ := st.Subscribe()
+				results <- c.subscriberLoop("late", ch, false, r, stop, floor)
+				return
+			}
+			if done.Load() {
+				return
+			}
+			yield(r, 5)
+		}
+	}()
+	for k := 0; k < 8; k++ {
+		others.Add(1)
+		go func() {
+			defer others.Done()
+			c.reader(10+k, mkrng(int64(400+k)), &done)
+		}()
+	}
+	if c.dual {
+		writers.Add(2)
+		go func() { defer writers.Done(); c.writer(0, mkrng(1), c.a, nil, nil) }()
+		go func() { defer writers.Done(); c.writer(1, mkrng(2), c.b, nil, nil) }()
+	} else {
+		writers.Add(1)
+		wg := vstore.NewGen(seed ^ 0x77)
+		go func() { defer writers.Done(); c.writer(0, mkrng(1), c.a, wg, chain) }()
+	}
+
+	wdone := make(chan struct{})
+	go func() { writers.Wait(); close(wdone) }()
+	select {
+	case <-wdone:
+	case <-time.After(watchdog):
+		if blocked, dump := blockedInPut(); blocked {
+			run.Violation("C09 conc: writer blocked: Put parked in a channel send to a subscriber", map[string]any{
+				"case": idx, "case_seed": seed, "goroutine": dump, "dual_writers": c.dual})
+		} else {
+			run.Count("watchdog_stalls_not_in_put_send", 1)
+			run.Inconclusive("watchdog")
+			fmt.Println("watchdog stall, goroutines:\n" + dump)
+		}
+		return c, false
+	}
+	done.Store(true)
+	close(stop)
+	odone := make(chan struct{})
+	go func() { others.Wait(); close(odone) }()
+	select {
+	case <-odone:
+	case <-time.After(watchdog):
+		run.Count("watchdog_stalls_readers", 1)
+		run.Inconclusive("watchdog")
+		return c, false
+	}
+	close(results)
+
+	// quiescence
+	latest := st.Latest()
+	if latest == nil || latest.GPBFTInstance != c.first+uint64(c.n)-1 {
+		c.problem("C09 conc: after all successors were put the latest certificate is not the last one", fmt.Sprint(latest))
+		return c, true
+	}
+	lb := vstore.CertBytes(latest)
+	for r := range results {
+		c.count("subscriber_values", int64(r.values))
+		if !bytes.Equal(r.last, lb) {
+			c.problem("C09 conc: at quiescence a subscriber's last value is not the latest certificate", fmt.Sprintf("subscriber %s after %d values", r.name, r.values))
+		}
+		c.count("subscribers_checked_at_quiescence", 1)
+	}
+	select { // the subscriber that never read: exactly the latest must be waiting
+	case got := <-neverCh:
+		if !bytes.Equal(vstore.CertBytes(got), lb) {
+			c.problem("C09 conc: at quiescence a subscriber's last value is not the latest certificate", "subscriber that never read")
+		}
+		c.count("subscribers_checked_at_quiescence", 1)
+	default:
+		c.problem("C09 conc: at quiescence a subscriber's last value is not the latest certificate", "subscriber that never read has nothing buffered")
+	}
+
+	// final state == reference built from the winners, before and after reopening
+	win := vstore.NewModel()
+	_ = win.Create(c.first, chain.Tables[0])
+	for k := 0; k < c.n; k++ {
+		got, err := st.Get(ctx, c.first+uint64(k))
+		if err != nil {
+			c.problem("C09 conc: Get failed for an instance at or below an observed Latest", err.Error())
+			return c, true
+		}
+		gb := vstore.CertBytes(got)
+		c.checkCert(c.first+uint64(k), gb, "Get")
+		w := c.a[k]
+		if bytes.Equal(gb, c.bb[k]) {
+			w = c.b[k]
+			c.count("instances_won_by_second_writer", 1)
+		}
+		if out, why := win.Put(w); out != vstore.PutAccept {
+			c.problem("C09 conc: stored history is not a chain of admissible successors", why)
+			return c, true
+		}
+	}
+	want := win.Observe()
+	if d := vstore.Observe(ctx, st, c.first).Diff(want); d != "" {
+		c.problem("C09 conc: final store differs from reference: "+canon(d), d)
+	}
+	re, err := certstore.OpenStore(ctx, c.ds)
+	if err != nil {
+		c.problem("C09 conc: reopening after the concurrent history failed", err.Error())
+	} else {
+		certstore.VerifC09SetPowerTableFrequency(re, c.freq)
+		if d := vstore.Observe(ctx, re, c.first).Diff(want); d != "" {
+			c.problem("C09 conc: reopened store differs from reference: "+canon(d), d)
+		}
+	}
+
+	// linearizability of {Put, Latest}
+	res := porcupine.CheckOperationsTimeout(regModel(c.first), c.history, 60*time.Second)
+	switch res {
+	case porcupine.Illegal:
+		c.problem("C09 conc: {Put, Latest} history is not linearizable", fmt.Sprintf("%d operations", len(c.history)))
+	case porcupine.Unknown:
+		c.count("porcupine_unknown", 1)
+	default:
+		c.count("porcupine_ok", 1)
+	}
+	c.count("porcupine_operations", int64(len(c.history)))
+	return c, true
+}
+
+func TestConcurrent(t *testing.T) {
+	run := vkit.New("C09", "conc", "exploration")
+	n := run.N(40, 4000)
+	run.SetRule("each evaluation is one concurrent history on one store: 1 writer (with inadmissible puts) or 2 competing writers with different certificates for the same successors, 8 readers, 5 subscribers (eager, slow, never-reading, late, unsubscribing), random yields before every datastore write, call/return stamps from one atomic counter; distinct = distinct (parameters, linearization-relevant history shape); non-trivial = at least 16 accepted puts, reads overlapping puts, and all quiescence checks performed")
+	run.Assume("stamps come from one atomic counter; an operation's effect lies between its call and return stamp",
+		"Get is not part of the linearizability model (the property does not promise it); it is checked for found/immutable only at instances already observed through Latest",
+		"the watchdog (45 s wall clock per history) only separates 'writer parked in a channel send inside Store.Put' (violation) from any other stall (inconclusive)")
+	var aborted atomic.Int64
+	var nontrivial atomic.Int64
+	body := func(i int) {
+		if aborted.Load() > 0 {
+			return
+		}
+		run.Breadcrumb(fmt.Sprintf("case=%d", i))
+		c, completed := runConc(run, i)
+		if !completed {
+			aborted.Add(1)
+			return
+		}
+		run.Eval(1)
+		for k, v := range c.counts {
+			run.Count(k, v)
+		}
+		if c.dual {
+			run.Count("histories_two_writers", 1)
+		} else {
+			run.Count("histories_one_writer", 1)
+		}
+		overlap := 0
+		for _, op := range c.history {
+			if _, ok := op.Input.(latestIn); ok && op.Output.(int64) >= 0 && op.Output.(int64) < int64(c.n-1) {
+				overlap++
+			}
+		}
+		run.Count("latest_calls_during_writes", int64(overlap))
+		if overlap > 0 && c.counts["subscribers_checked_at_quiescence"] >= 3 {
+			nontrivial.Add(1)
+			h := fmt.Sprintf("%d|%d|%d|%v|", c.first, c.freq, c.n, c.dual)
+			for _, op := range c.history {
+				h += fmt.Sprintf("%v%v;", op.Input, op.Output)
+			}
+			run.Distinct(h)
+		}
+		if i < 3 {
+			run.Sample(map[string]any{"case": i, "first": c.first, "frequency": c.freq, "instances": c.n, "two_writers": c.dual,
+				"history_operations": len(c.history), "latest_calls_during_writes": overlap, "counts": c.counts})
+		}
+		seenSig := map[string]bool{}
+		for _, p := range c.problems {
+			sig, detail, _ := strings.Cut(p, "\x00")
+			if seenSig[sig] {
+				continue
+			}
+			seenSig[sig] = true
+			run.Violation(sig, map[string]any{"case": i, "case_seed": c.seed, "first": c.first, "frequency": c.freq, "instances": c.n,
+				"two_writers": c.dual, "detail": detail, "all_problems": len(c.problems)})
+		}
+	}
+	if run.Case >= 0 {
+		body(int(run.Case))
+	} else {
+		vkit.Parallel(n, max(2, runtime.GOMAXPROCS(0)/2), body)
+		if run.Violations() == 0 && (nontrivial.Load()*2 < int64(n) || run.Counter("porcupine_ok")*10 < int64(n)*9) {
+			run.Inconclusive("too-few-events")
+		}
+	}
+	rc := run.Finish()
+	if rc != 0 {
+		t.Fail()
+	}
+	if rc == 2 {
+		os.Exit(2)
+	}
+}
